@@ -172,8 +172,10 @@ pub fn direct_any<S: Src>(s: &mut S) {
 
 /// the five-card entry points all delegate to the one evaluation: with
 /// hand_rank_value_and_hand replaced by "returns (v, self)" for an arbitrary v,
-/// forall words: hand_rank_value == v, hand_rank == from(v), validated == (valid ? v : 0),
-/// the free function == validated
+/// forall words: hand_rank_value == v and hand_rank == from(v); on five distinct real
+/// cards (the domain of C01) the validated form and the free function also return v.
+/// Nothing is claimed here about WHICH non-hands are rejected (that is C04.validated_five):
+/// on other words the validated forms return normally with v or 0.
 pub fn entry_points<S: Src>(s: &mut S) {
     let w = [s.u32(), s.u32(), s.u32(), s.u32(), s.u32()];
     let v = s.u16();
@@ -187,18 +189,44 @@ pub fn entry_points<S: Src>(s: &mut S) {
         let _ = v;
         if !valid_hand(&w) {
             // the unvalidated entry points are only specified on hands they accept
-            let h2 = h;
-            check!(s, !h2.is_valid(), "C01.entry_points.is_valid_exact");
-            check!(s, h2.hand_rank_value_validated() == 0, "C01.entry_points.validated_zero_iff_not_valid");
-            check!(s, evaluate::five_cards(w) == 0, "C01.entry_points.free_function_is_validated");
             return;
         }
         h.hand_rank_value_and_hand().0
     };
     check!(s, h.hand_rank_value() == v, "C01.entry_points.hand_rank_value_delegates");
     check!(s, h.hand_rank() == HandRank::from(v), "C01.entry_points.hand_rank_is_from_value");
+    let vv = h.hand_rank_value_validated();
+    let fv = evaluate::five_cards(w);
+    if valid_hand(&w) {
+        check!(s, vv == v, "C01.entry_points.validated_same_value_on_real_hands");
+        check!(s, fv == v, "C01.entry_points.free_function_same_value_on_real_hands");
+    } else {
+        check!(s, vv == v || vv == 0, "C01.entry_points.validated_returns_value_or_zero");
+        check!(s, fv == vv, "C01.entry_points.free_function_is_validated");
+    }
+}
+
+/// C04 for five slots and the free function, forall words: validated ranking is 0 exactly
+/// when the hand is not valid (every slot one of the 52 card words, no two equal) and
+/// otherwise the value the evaluation returns; invalid hands are not evaluated.
+pub fn validated_five<S: Src>(s: &mut S) {
+    let w = [s.u32(), s.u32(), s.u32(), s.u32(), s.u32()];
+    let v = s.u16();
+    stubs::set_fixed(v, w);
+    reach!(s, valid_hand(&w), "C04.validated_five.reach_valid");
+    reach!(s, all_distinct(&w) && !all_cards(&w), "C04.validated_five.reach_near_miss");
+    let h = Five::from(w);
+    #[cfg(not(kani))]
+    let v = {
+        let _ = v;
+        if valid_hand(&w) {
+            h.hand_rank_value_and_hand().0
+        } else {
+            0
+        }
+    };
     let want = if valid_hand(&w) { v } else { 0 };
-    check!(s, h.is_valid() == valid_hand(&w), "C01.entry_points.is_valid_exact");
-    check!(s, h.hand_rank_value_validated() == want, "C01.entry_points.validated_zero_iff_not_valid");
-    check!(s, evaluate::five_cards(w) == want, "C01.entry_points.free_function_is_validated");
+    check!(s, h.is_valid() == valid_hand(&w), "C04.validated_five.is_valid_exact");
+    check!(s, h.hand_rank_value_validated() == want, "C04.validated_five.zero_iff_not_valid");
+    check!(s, evaluate::five_cards(w) == want, "C04.validated_five.free_function_zero_iff_not_valid");
 }
